@@ -70,7 +70,7 @@ func (v DenseFloat64Vector) APPEND(w DenseFloat64Vector) DenseFloat64Vector {
   return append(v, w...)
 }
 func (v DenseFloat64Vector) ToDenseFloat64Matrix(n, m int) *DenseFloat64Matrix {
-  if n*m != len(v) {
+  if n < 0 || m < 0 || n*m != len(v) {
     panic("Matrix dimension does not fit input vector!")
   }
   matrix := DenseFloat64Matrix{}
